@@ -139,6 +139,16 @@ func HarnessL3() {
 	if zzvrt.Param("MINSIZED", 0) == 1 {
 		cfg.MinSizedInts = zzvrt.Bool()
 	}
+	if zzvrt.Param("CFG", 0) == 1 {
+		// every combination of the output-shaping options
+		cfg.OnlyModels, cfg.ExtraImports, cfg.StructNameFromTitle = zzvrt.Bool(), zzvrt.Bool(), zzvrt.Bool()
+		if zzvrt.Bool() {
+			cfg.Tags = []string{"yaml"}
+		}
+		if zzvrt.Bool() {
+			cfg.Capitalizations = []string{"ID", "URL"}
+		}
+	}
 	src, rootType, err := zzGenerate(pt, required, viaRef, cfg, zzAllDefs(ps))
 	cls := ps.kind
 	if ps.nullable {
@@ -179,6 +189,9 @@ func HarnessL3() {
 		emptyDev.Cond = hi < lo
 	}
 	zzvrt.Check("C01.L3.literals-fit", zzvrt.S2Fits(h), emptyDev)
+	if zzvrt.Param("NODOC", 0) == 1 || cfg.OnlyModels || (cfg.Tags != nil && cfg.Tags[0] != "json") {
+		return // no methods / no json binding: nothing for the document checks to decide
+	}
 
 	d := zzvrt.NewDoc()
 	zzTypeCorrectObject(d)
